@@ -167,6 +167,19 @@ func init() {
 			depth, budget = 8, 2400
 		}
 		engine.RunSeq(r, engine.SeqSpec{Name: "c07-seq", WorkerArgs: []string{"worker", "dsm"}, Alphabet: vOpsJSON(alpha), Params: params, Depth: depth, Budget: secs(budget)})
+		// SCHED: two requests create the same dataset while a writer writes to it by name and it is deleted again:
+		// whatever the order, nothing of a deleted incarnation may show up anywhere
+		{
+			sc := SchedScenario{Name: "D1-create-twice-write-delete", Datasets: []string{"A"}, IDs: vIDs, MapPoints: true,
+				Pre: []VOp{{K: "batch", DS: "A", Ents: []VEnt{{"e1", pi("v1")}}}},
+				Threads: [][]VOp{{{K: "create", DS: "C"}, {K: "batch", DS: "C", Ents: []VEnt{{"e1", pi("v2r2")}}}, {K: "delete", DS: "C"}, {K: "get", Ents: []VEnt{{"e1", pi("v1")}}}},
+					{{K: "create", DS: "C"}, {K: "get", Ents: []VEnt{{"e1", pi("v1")}}}}}}
+			bound, sb := 2, 60
+			if !r.Quick() {
+				bound, sb = 3, 900
+			}
+			engine.RunSched(r, engine.SchedSpec{Name: sc.Name, WorkerArgs: []string{"worker", "sched-store"}, Scenario: sc, Bound: bound, Horizon: 1500, BudgetS: sb})
+		}
 		// CRASH part
 		pre := []VOp{
 			{K: "batch", DS: "S", Ents: []VEnt{{"e1", pi("v1r2")}, {"e2", pi("r1")}}},
